@@ -18,7 +18,7 @@ distinct token types -/
 theorem names_ok : N.ok = true := by decide +kernel
 
 /-- `emit_build_fixed` on the EXPRESSION layer: every expression model that is well-formed within nesting depth `f`
-(literals, variables, parameters, property lookups, label tests, count(*), function calls, lists, parentheses, unary sign,
+(literals, variables, parameters, property lookups, label tests, count(*), function calls, quantifiers all/any/none/single(v IN e [WHERE p]), lists, parentheses, unary sign,
 map literals with bare, strictly increasing keys, `^`, `* / %`, `+ -`, one string/list/null predicate per operand, comparison chains, NOT, AND, XOR, OR) is rebuilt exactly by the
 visitor model from its canonical tree, for any fuel ≥ 2·size + 2 -/
 theorem emit_build_fixed_expr (f : Nat) (e : Expr) (hw : wfExpr f e = true) (g : Nat)
@@ -149,6 +149,10 @@ example : wfQuery 2 (.multi
 example : wfExpr 3 (.conj [.cmp (.prop (.var "n") "a") [("=", .lit (.int 1))],
     .neg (.paren (.disj [.cmp (.prop (.var "m") "b") [("in", .list [.lit (.int 1), .lit (.int 2)])],
                          .cmp (.fn false [] "count" [.star]) [(">", .lit (.int 0))]]))]) = true := by decide +kernel
+
+/-- non-vacuity for quantifiers: `any(x IN n.list WHERE x > 1) AND none(y IN [2])` -/
+example : wfExpr 3 (.conj [.quant "any" "x" (.prop (.var "n") "list") (some (.cmp (.var "x") [(">", .lit (.int 1))])),
+    .quant "none" "y" (.list [.lit (.int 2)]) none]) = true := by decide +kernel
 
 /-- non-vacuity for map literals: `{a: 1, b: [x]} = $p` -/
 example : wfExpr 3 (.cmp (.map [("a", .lit (.int 1)), ("b", .list [.var "x"])]) [("=", .param "p")]) = true := by decide +kernel
